@@ -92,7 +92,8 @@ func checkC18(p *Program, r *Report) {
 	r.Rule("R18.1", "returned value is f at the returned point: with ρ(a,b) ⇔ b = fn(a) extended over phi pairs (greatest fixpoint), every `return x, delta` of FindRoot satisfies ρ(x, delta), and so does every bracket pair (minX,minDelta), (maxX,maxDelta), (…TrialX,…TrialDelta) carried around the iteration")
 	r.Rule("R18.2", "Piecewise: error, never a number, outside the table: the value return is on the false edges of i<0 and j<0; brackets returns a non-negative pair only from inside the scan loop on the true edge of xs[j] >= x after both end comparisons failed; every other return yields (-1,-1)")
 	r.Assumptions = append(r.Assumptions,
-		"narrow claim: bracketing invariants, convergence, 'never evaluated outside the interval' and interpolation values need relational numeric invariants over products and quotients and are NOT decided")
+		"narrow claim: bracketing invariants, convergence and 'never evaluated outside the interval' need relational numeric invariants over products and quotients and are NOT decided; that Piecewise returns the linear interpolant of the two entries its bracket search hands back is decided as a polynomial identity (R18.5), which entries the search hands back only structurally (R18.2)")
+	checkPiecewiseInterpolant(p, r)
 	pk := p.SSAPkg[modPath+"/util/fn"]
 	if pk == nil {
 		r.Undecided("R18.1", "pkg", "-", "util/fn not loaded")
